@@ -23,7 +23,7 @@ func init() {
 		Title: "A segment is never closed or deleted while in use, and never leaks",
 		Decides: "the lock-free fast path of the segment reference count can only bump a positive count (never resurrect a dormant segment); every other change of the count holds the segment mutex; " +
 			"resources are closed / the directory removed only under that mutex and only on the branch where the count read under the lock is zero; acquire refuses a segment flagged for deletion before reopening it; " +
-			"the segment's index pointer is accessed under the mutex (or through the hold-a-reference accessors); every segment reference obtained by a caller (SelectSegments, CreateSegmentIfNotExist, segments, incRef) is released or handed to an owner on every exit, and loops that pin several segments unwind on a mid-loop failure; DecRef runs the deferred delete only on the 1→0 transition of a flagged segment; a failed (re)open clears segment.index — the \"resources open\" bit — on every failing exit.",
+			"the segment's index pointer is accessed under the mutex (or through the hold-a-reference accessors); every segment reference obtained by a caller (SelectSegments, CreateSegmentIfNotExist, segments, incRef) is released or handed to an owner on every exit, and loops that pin several segments unwind on a mid-loop failure; DecRef runs the deferred delete only on the 1→0 transition of a flagged segment; closeResourcesLocked resets every resource field it closes (index pointer, shard list) before returning; a failed (re)open clears segment.index — the \"resources open\" bit — on every failing exit.",
 		NotDecided: "that these invariants compose to safety under every interleaving (a model-checking claim), idle-timer behaviour, liveness of deferred deletes.",
 		Technique:  "SSA value-world pruning on atomic loads/CAS operands; must-lockset; acquire/release pairing with collection ownership; must-clear on every failing exit (open bit)",
 		Run:        runC14,
@@ -96,6 +96,92 @@ func runC14(c *core.Ctx) {
 		if n == 0 {
 			r.Undecide(rule, ssax.FuncName(f)+": index installation site", r.fpos(f), "no store of a non-nil value to segment.index found")
 		}
+	}
+
+	// 0b. whatever closeResourcesLocked closes it also forgets: the index pointer and the shard list are reset
+	// after their Close, so a reopen builds fresh resources instead of finding the closed ones
+	if f := r.fn("c14.closed-resources-forgotten", stPkg, "(*segment).closeResourcesLocked"); f != nil {
+		rule := "c14.closed-resources-forgotten"
+		var rootField func(v ssa.Value, d int) *ssa.FieldAddr
+		rootField = func(v ssa.Value, d int) *ssa.FieldAddr {
+			if d > 12 || v == nil {
+				return nil
+			}
+			switch x := v.(type) {
+			case *ssa.FieldAddr:
+				if _, isParam := x.X.(*ssa.Parameter); isParam {
+					return x
+				}
+				return rootField(x.X, d+1)
+			case *ssa.UnOp:
+				return rootField(x.X, d+1)
+			case *ssa.IndexAddr:
+				return rootField(x.X, d+1)
+			case *ssa.Index:
+				return rootField(x.X, d+1)
+			case *ssa.Extract:
+				return rootField(x.Tuple, d+1)
+			case *ssa.Next:
+				return rootField(x.Iter, d+1)
+			case *ssa.Range:
+				return rootField(x.X, d+1)
+			case *ssa.Phi:
+				for _, e := range x.Edges {
+					if fa := rootField(e, d+1); fa != nil {
+						return fa
+					}
+				}
+			case *ssa.Call:
+				if strings.HasSuffix(ssax.CalleeName(x.Common()), ").Load") && len(x.Call.Args) > 0 {
+					return rootField(x.Call.Args[0], d+1)
+				}
+			}
+			return nil
+		}
+		n := 0
+		for _, in := range ssax.Find(f, func(in ssa.Instruction) bool {
+			c, ok := in.(*ssa.Call)
+			if !ok {
+				return false
+			}
+			nm := ssax.CalleeName(c.Common())
+			return strings.HasSuffix(nm, ".Close") || strings.HasSuffix(nm, ".close")
+		}) {
+			c := in.(*ssa.Call)
+			var recv ssa.Value
+			if c.Call.IsInvoke() {
+				recv = c.Call.Value
+			} else if len(c.Call.Args) > 0 {
+				recv = c.Call.Args[0]
+			}
+			fa := rootField(recv, 0)
+			if fa == nil {
+				continue
+			}
+			n++
+			fld := ssax.FieldOf(fa)
+			reset := func(x ssa.Instruction) bool {
+				switch y := x.(type) {
+				case *ssa.Store:
+					a, ok := y.Addr.(*ssa.FieldAddr)
+					return ok && ssax.FieldOf(a) == fld
+				case *ssa.Call:
+					if strings.HasSuffix(ssax.CalleeName(y.Common()), ").Store") && len(y.Call.Args) > 0 {
+						a, ok := y.Call.Args[0].(*ssa.FieldAddr)
+						return ok && ssax.FieldOf(a) == fld
+					}
+				}
+				return false
+			}
+			construct := fmt.Sprintf("%s: %s closed ⇒ segment.%s reset before return", ssax.FuncName(f), ssax.CalleeName(c.Common()), fld.Name())
+			if tgt, path, found := (ssax.Search{Target: ssax.IsReturn, Avoid: reset}).From(f, in); found {
+				r.Violate(rule, construct, r.pos(in), fmt.Sprintf("after the close at %s the function can return (%s, blocks %s) with segment.%s still pointing at the closed resource: the next acquire finds it, skips re-creating it and hands a closed table / index to its holder", r.pos(in), r.pos(tgt), blocksStr(path), fld.Name()))
+			} else {
+				r.Hold(rule, construct, r.pos(in), "")
+			}
+		}
+		r.Floor(rule, 2)
+		_ = n
 	}
 
 	// 1. CAS fast path only on a positive count; all other writes under s.mu
